@@ -656,7 +656,6 @@ where
                     blocked: blocked_on_estimate,
                 });
                 let IncarnationAccesses { blocking_txs, blocked_by_beneficiary, .. } = accesses;
-                let invalid_transaction = matches!(e, EVMError::Transaction(_));
                 conflict = true;
                 let mut write_set = HashSet::new();
 
@@ -691,13 +690,20 @@ where
                         #[cfg(grevm_verif)]
                         crate::verif::event(crate::verif::Event::ErrorAtHead {
                             txid,
-                            invalid_tx: invalid_transaction,
+                            invalid_tx: matches!(
+                                last_result.as_ref().map(|result| &result.execute_result),
+                                Some(Err(EVMError::Transaction(_)))
+                            ),
                         });
-                        if invalid_transaction {
-                            self.abort(AbortReason::FallbackSequential);
-                        } else {
-                            self.abort(AbortReason::FatalEvmError(txid));
-                        }
+                        // Only a replay from the committed prefix is authoritative. This attempt ran
+                        // with the nonce check disabled and may have started before its predecessors
+                        // committed, so its error can be one that in-order execution never meets
+                        // (an invalid transaction is skipped before it reads anything else; a stale
+                        // read can touch a key the final state never touches). A later attempt can
+                        // also overwrite the error slot before it is reported. Sequential replay
+                        // re-executes the transaction against committed state and returns a genuine
+                        // error with the exact committed prefix.
+                        self.abort(AbortReason::FallbackSequential);
                     }
                     self.tx_dependency.key_tx(txid, self.scheduler_ctx.commit_cursor());
                 }
